@@ -342,7 +342,7 @@ _RULE_EXTRA = {
            "any columns / composite / none, rows in key order or not, equal keys, 1 row .. 3 blocks); every ordered triple of (sound, re-ingest, key reset) comes up over the indices; after Doctor.Diagnose + "
            "ONE Doctor.Resolve over all the issues every table of the new history must satisfy tableInv and a clean self-diagnosis, and equal what the resolver model (Model/Resolver.lean: one sorter with "
            "its Reset and its PK field over the whole history) writes",
-    "C05": "; 1 in 4 keyed tuples with column-changing branches (add / remove / move columns per branch, shared new names), judged by column name; 1 in 4 with an all-empty key; 1 in 20 indices carry a second case, a history through the command line (`wrgl commit` / `branch create` / 3..4 `wrgl merge` steps with --ff / --no-ff / --ff-only / default: BRANCH behind, ahead of (by one or two commits), on the same commit as, or diverged from the commit merged in; a completed merge run again; merged again after one side moved on), the table of every branch read back after every merge and judged by the merge laws on a model of the commit graph; 1 in 10 indices carry the same tuple re-based on a header-only table (tag empty-base: no block, empty table index; every branch row is an addition); 1 in 10 (thorough 1 in 40) carry a case of what `wrgl merge` delivers (op merge-cli-deliver: the conflict keys and merged rows of the --no-gui CONFLICTS file, the --no-commit MERGE file, the merge commit; key in front, header-only / one-block / several-block base) on a healthy repository or with one block index / block / table index of the base or a branch deleted from the object store: whenever the command reports success the delivered rows and conflicts must be the three-way merge of the committed tables, a failure is accepted only when an object was taken away",
+    "C05": "; 1 in 4 keyed tuples with column-changing branches (add / remove / move columns per branch, shared new names), judged by column name; 1 in 4 with an all-empty key; 1 in 20 indices carry a second case, a history through the command line (`wrgl commit` / `branch create` / 3..4 `wrgl merge` steps with --ff / --no-ff / --ff-only / default: BRANCH behind, ahead of (by one or two commits), on the same commit as, or diverged from the commit merged in; a completed merge run again; merged again after one side moved on), the table of every branch read back after every merge and judged by the merge laws on a model of the commit graph; 1 in 10 indices carry the same tuple re-based on a header-only table (tag empty-base: no block, empty table index; every branch row is an addition); 1 in 10 (thorough 1 in 40) carry a case of what `wrgl merge` delivers (op merge-cli-deliver: the conflict keys and merged rows of the --no-gui CONFLICTS file, the --no-commit MERGE file, the merge commit; key in front, header-only / one-block / several-block base) on a healthy repository or with one block index / block / table index of the base or a branch deleted from the object store: whenever the command reports success the delivered rows and conflicts must be the three-way merge of the committed tables, a failure is accepted only when an object was taken away; 2 in 10 indices carry a `sparse` tuple (base of 2..4 blocks, 1..4 changed rows placed per block, block edges favoured, each with its own scenario: removed by all / one / all but one, same edit by all, edit by one, different edits, removed vs edited; sometimes an added row: most blocks are touched by no branch); 1 in 20 indices carry a history with THREE heads merged at once (op merge-cli-pull: a tree-shaped history on a remote behind the reference server -- trunk, three lines leaving it at one commit or one there and two that first share a stretch of their own, every line editing rows of its own -- `wrgl pull main origin hA` then `wrgl pull main origin hB hC`, heads in any order; BRANCH must hold the by-name three-way resolution of the three head tables over the table of the best common ancestor of ALL heads on the commit graph (Spec/MergeBase.lean, C05_merge_base_spec); shapes restricted to single-parent histories in which the two heads sharing a stretch are equally far from where they part: on others the unchanged tree takes a base that is not an ancestor of every head, known finding C11-seek-not-common-3, witness corpus/pending/C05-pull-three-heads-wrong-base.json, generator flag VERIF_C05_PULL_UNEQUAL_LINES=1)",
     "C06": "; block indices built by IndexBlock (0..5 or 255 rows, keyed or keyless): written, read, re-written, stored, fetched, compared with the Lean codec; table profiles of real ingests decoded and re-encoded; with each of them a generated profile VALUE (0..4 columns, every field present/absent/empty, any 64-bit float pattern, column names of 255..131072 bytes, top values up to 65535 bytes) written, read back, re-encoded, stored and fetched, its bytes compared with the writer of Model/Profile.lean, a text that does not fit 16 bits must be refused; 1 in 32 a history of 2..8 Save*/Delete* calls on one store that writes keys again (same content; other content under the same table sum for table index / profile), read back after every step and dumped at the end, against the finite map of Model/ObjStore.lean; the history runs on one of the four objects.Store implementations (the harness's map, objmock, objbadger.Store, and - half of the cases - the transaction store objbadger.Txn, whose Save*/Delete* calls are staged, read back through the transaction, and reach the database at partial commits placed inside the history and at the final Commit; model: TxnStore of Model/ObjStore.lean, the database is dumped from outside the transaction after every commit), and in 3 of 4 histories the caller serialises every object into ONE buffer, hands SaveBlock / SaveBlockIndex the compression buffer they gave back, and overwrites both as soon as each Save* has returned (tags store-*, caller-reuses-its-buffers, partial-commit); 1 in 64 a stored table whose index and profile keys hold another table's / an older profiler's / damaged / the same / no bytes, refreshed by IndexTable + ProfileTable and compared with the same refresh onto absent keys",
     "C07": "; 1 in 5 extra tables header-only; 1 scenario in 2 also holds 1..2 tables that are another table of the scenario committed again under another primary key that keeps the row order (first column + second column, or keyless): the very same blocks under different block indices, placed anywhere among the tables (tag same-blocks-under-another-primary-key); for every received table each block index it names must be held by the destination with the source's bytes, one per block; 1 table in 3 has a block (a middle one or the last) whose final row ends with an empty cell; commit times in 13 zones (whole-hour and fractional offsets on both sides of UTC); 1 case in 4 negotiated: histories of 2..8 commits with more merges, the destination asks for 1..2 commits it lacks and reports its tips (sometimes more, sometimes an unknown hash, in 1..2 rounds, depth 0..3, optionally acknowledging tables it has), the real ClosedSetsFinder picks the commit list, tables and commons that ObjectSender then sends; the transfer must succeed and leave every ancestor of the wants (tables within the depth) and nothing outside the wanted history; 1 case in 4 (and every other negotiated one): every packfile of the transfer is also delivered cut short to a copy of the destination as it was before that packfile (inside the file header, at every object boundary, at every byte of objects up to 256 bytes, at 16 bytes from either end plus 16 drawn in between of larger ones; at most about 400 cuts per case): a cut on an object boundary is accepted, any other is refused, and the copy holds exactly the complete objects before the cut, identical to the source's",
     "C08": "; 1 case in 4: the refs live in rotating namespaces (heads, tags, remote-tracking, transaction refs txs/<id>/<branch>, custom); 1 case in 5: the session continues on the same finder after a refused request (a round whose wants include a commit no ref reaches, an unknown hash or a commit without its table, alone or with a legitimate want, placed before / between / after the generated rounds): refused rounds change nothing, everything sent must be justified by the accepted wants alone",
@@ -399,7 +399,7 @@ for _k, _v in _WIDEN_N.items():
 _LEVEL_EXTRA = {
     "C09": " Also: C09_tables_within_depth (the receiver ends with the table of every commit of the want's history within the requested depth, given that commons' tables are present at the receiver) and C09_transfer_closed_multi (several wants in one exchange). Interrupted transfers: cut at ANY object boundary of the sender's stream, every commit the receiver newly holds has its table (C09_interrupted_commit_has_table), which is what lets the retry skip stored commits; a receiver that sets tables aside until the packfile's end does not have this (C09_deferred_tables_unsafe).",
     "C13": " Receive, commits: for ANY object stream (whatever order the sender chose) and any crash point or refusal every stored commit has all its parents, because the receiver looks the parents up before writing the commit (C13_receive_any_order_parents); without the look-up a child sent before its parent leaves an orphan (C13_unchecked_receive_unsafe).",
-    "C05": " The per-cell decision chain is additionally tied to the source by a regenerated guard table: extract/paths.go lists the guards in front of every unresolveCol(i) of tryResolve, and C05_unresolve_table_is_model proves over all 216 situations of a step that the table fires exactly when the model's cellStep marks the column unresolved. Column-changing branches: the by-name resolution `resolveRecCols` used for them is proved to coincide with the same-columns resolution when all tables share the base's columns (C05_cols_model_extends_same).",
+    "C05": " The per-cell decision chain is additionally tied to the source by a regenerated guard table: extract/paths.go lists the guards in front of every unresolveCol(i) of tryResolve, and C05_unresolve_table_is_model proves over all 216 situations of a step that the table fires exactly when the model's cellStep marks the column unresolved. Column-changing branches: the by-name resolution `resolveRecCols` used for them is proved to coincide with the same-columns resolution when all tables share the base's columns (C05_cols_model_extends_same). The base of a merge of several heads is specified on the commit graph: bestCommonAncestors is exactly the set of commits that are an ancestor-or-self of every head with no other such commit below them (C05_merge_base_spec, C05_merge_base_reaches_every_head).",
     "C06": " Block index codec: round trip, re-encoding and injectivity (C06_blockIndex_*); the pre-allocation cap of the decoders is extracted as never bounding a read loop. The store as a function of its history: a save reads back whatever the key held, other keys are untouched, delete unbinds, the same content again changes nothing (C06_save_reads_back, C06_store_op_keeps_other_keys, C06_delete_unbinds, C06_save_again_changes_nothing, C06_store_keys_distinct); the transaction store: committed (with partial commits anywhere) it holds exactly what the same calls leave in a plain store, i.e. what each save was GIVEN, it reads its own staged writes, and nothing reaches the database before a commit (C06_txn_commit_is_the_direct_history, C06_txn_reads_its_own_writes, C06_txn_staged_is_invisible_outside).",
     "C08": " Across wants: C08_all_wants (one whole call of enqueueWants: closed for every non-pending want, acceptable at every position, sound). Across the round's bookkeeping: C08_accepts_reachable_wants and C08_process_sound (Process accepts exactly the wants reachable from refs whatever the timestamps; every ack is a have that is an ancestor of a ref).",
     "C11": " Walks from any list of start points, repeats included, pop every ancestor exactly once (C11_walk_multi_each_once).",
